@@ -2045,6 +2045,35 @@ func corpus() []*osm.OSM {
 		x.Relations[0].ID, x.Relations[1].ID, x.Relations[2].ID = -3, osm.RelationID(B*2+1), -(1 << 31)
 		out = append(out, x)
 	}
+	// Way.Polygon() with an area override in every position relative to the area-making tag:
+	// closed ways tagged building/landuse/highway with area=no / area=yes first, last and between
+	// other tags (way pass: polygon or line), also as outer and inner members of a tagged
+	// multipolygon that keep their own feature
+	{
+		x := &osm.OSM{Nodes: nodesAt([3]int{1, 10, 10}, [3]int{2, 20, 10}, [3]int{3, 20, 20}, [3]int{4, 10, 20},
+			[3]int{5, 12, 12}, [3]int{6, 14, 12}, [3]int{7, 14, 14}, [3]int{8, 12, 14})}
+		orders := []osm.Tags{
+			tagsOf("building", "yes", "area", "no"), tagsOf("area", "no", "building", "yes"),
+			tagsOf("building", "yes", "name", "x", "area", "no"), tagsOf("name", "x", "area", "no", "building", "yes"),
+			tagsOf("building", "yes", "area", "no", "name", "x"), tagsOf("area", "no", "name", "x", "building", "yes"),
+			tagsOf("landuse", "forest", "source", "s", "area", "no"), tagsOf("natural", "water", "area", "no", "landuse", "basin"),
+			tagsOf("highway", "residential", "area", "yes"), tagsOf("area", "yes", "highway", "residential"),
+			tagsOf("highway", "pedestrian", "name", "x", "area", "yes"), tagsOf("name", "x", "area", "yes", "barrier", "wall"),
+			tagsOf("building", "yes", "area", "yes"), tagsOf("area", "yes", "building", "no"), tagsOf("area", "no"), tagsOf("area", "yes"),
+			tagsOf("building", "no", "area", "no", "landuse", "forest"), tagsOf("building", "yes", "area", "false"),
+		}
+		for i, t := range orders {
+			x.Ways = append(x.Ways, wayIDs(100+i, t, 1, 2, 3, 4, 1))
+		}
+		// members: outer 201 (override last) and 202 (override first), inner 203 (override last), 204 (first)
+		x.Ways = append(x.Ways, wayIDs(201, tagsOf("building", "yes", "area", "no"), 1, 2, 3, 4, 1), wayIDs(202, tagsOf("area", "no", "building", "yes"), 1, 2, 3, 4, 1),
+			wayIDs(203, tagsOf("natural", "water", "area", "no"), 5, 6, 7, 8, 5), wayIDs(204, tagsOf("area", "no", "natural", "water"), 5, 6, 7, 8, 5))
+		x.Relations = osm.Relations{
+			{ID: 1, Tags: tagsOf("type", "multipolygon", "landuse", "forest"), Members: osm.Members{{Type: osm.TypeWay, Ref: 201, Role: "outer"}, {Type: osm.TypeWay, Ref: 203, Role: "inner"}}},
+			{ID: 2, Tags: tagsOf("type", "boundary", "name", "b"), Members: osm.Members{{Type: osm.TypeWay, Ref: 202, Role: "outer"}, {Type: osm.TypeWay, Ref: 204, Role: "inner"}}},
+		}
+		out = append(out, x)
+	}
 	// ---- known finding polygon-id-outside-packed-range: the Coq witnesses and directed probes ----
 	// polyNegativeID (Examples.d_polyneg): a tagged multipolygon relation with id -1 -> type "", id 2^40-1
 	out = append(out, &osm.OSM{
